@@ -33,6 +33,7 @@ type c07Scenario struct {
 	WriteErrAt  []int  `json:"write_error_on_write_no"`
 	ReaderErrs  int    `json:"reader_unknown_errors"`
 	ExitDelay   string `json:"consumer_exit_delay"`
+	CancelStep  int    `json:"early_cancel_at_step,omitempty"` // the scan is cancelled while frames are still being built
 }
 
 type c07ReqGen struct {
@@ -193,6 +194,9 @@ func runC07(t *testing.T, c simrt.Chooser, o Opts) *Out {
 		delay = min // all injected read errors (5 ms back-off each) happen before the cancel
 	}
 	sc.ExitDelay = delay.String()
+	if p.pct("earlycancel", 25) {
+		sc.CancelStep = 1 + p.n("cancelstep", 12*sc.Requests+50)
+	}
 	out := &Out{Scenario: sc, Stats: map[string]int{}}
 
 	reqErr := map[int]bool{}
@@ -223,8 +227,9 @@ func runC07(t *testing.T, c simrt.Chooser, o Opts) *Out {
 	var gotErrs []string
 	doneObserved, errcClosed := false, false
 	pendingAtDone := -1
-	res := simrt.Execute(t, simrt.Config{Chooser: c, Trace: o.Trace, MaxSteps: 400000}, nil, func(r *simrt.Run) {
+	res := simrt.Execute(t, simrt.Config{Chooser: c, Trace: o.Trace, MaxSteps: 400000, SigintStep: sc.CancelStep}, nil, func(r *simrt.Run) {
 		ctx, cancel := context.WithCancel(context.Background())
+		r.RegisterSignal(cancel)
 		wr = &c07Writer{run: r, sc: sc, stallFor: parseDur(sc.StallFor), failOn: wErr}
 		rd := &c07Reader{ctx: ctx, errs: sc.ReaderErrs}
 		src := scan.NewPacketSource(gen, scan.NewPacketMultiGenerator(&c07Filler{fail: buildErr}, sc.Workers))
@@ -248,6 +253,10 @@ func runC07(t *testing.T, c simrt.Chooser, o Opts) *Out {
 		simrt.Sleep("c07.exitdelay", delay)
 		simrt.Cancel("c07.cancel", cancel)
 		simrt.Recv("c07.drained", drained)
+		if sc.CancelStep > 0 {
+			// let the stages that were cut off by the early cancel run to their end
+			simrt.Sleep("c07.settle", time.Millisecond)
+		}
 	})
 	out.Res = &res
 	out.Stats["requests"] += sc.Requests
@@ -315,6 +324,18 @@ func runC07(t *testing.T, c simrt.Chooser, o Opts) *Out {
 		if wErr[k] {
 			nFailedWrites++
 		}
+	}
+	if res.SigFired {
+		// cancelled while frames were being built: what did reach the writer until every stage had
+		// ended is still a frame of this scan, at most once, unaltered; errors may be cut off
+		simrtProbe(&res, "cancelled-while-building")
+		if extra != 0 {
+			out.violate("C07.frames", sig+"/cancelled", "after a cancel at step %d: %d frames handed to the writer are not frames of error-free requests or are duplicates (requests %d, workers %d)", res.SigStep, extra, sc.Requests, sc.Workers)
+		}
+		if wr.altered > 0 {
+			out.violate("C07.altered", sig+"/cancelled", "%d frames changed while WritePacketData was still using them (buffer recycled too early)", wr.altered)
+		}
+		return out
 	}
 	if wr.nwrites != nOK {
 		out.violate("C07.frames", sig+"/count", "%d frames handed to the writer, %d requests were error-free and built (requests %d, workers %d)", wr.nwrites, nOK, sc.Requests, sc.Workers)
